@@ -255,6 +255,8 @@ struct GridState {
     bool dict_valid = true;                       // false after SetCoeff/Merge-without-reload style overwrites not tracked by coordinates
     bool constructing = false, removed = false;
     std::vector<double> candidates;               // last candidate list (transformed coordinates)
+    std::vector<double> target;                   // points of a deeper reference grid of the same spec: arbitrary-order deliveries during construction
+    std::set<size_t> target_done;
     std::vector<std::string> trace;               // executed ops (normalised text)
     Ctx *ctx = nullptr;                           // when set, executed ops are logged into the case text as they run
     int n_refine = 0, n_load = 0, n_constr_loads = 0, n_exec = 0;
@@ -354,7 +356,11 @@ inline bool apply_op(GridState &st, const Op &op) {
         for (size_t i = 0; i < n; i++) c[i] = 0.125 * (double)((int)((i * 5 + op.variant * 3) % 17) - 8);
         g.setHierarchicalCoefficients(c); st.dict.clear(); st.dict_valid = false;
         t << "SetCoeff(v=" << op.variant << ")"; break; }
-    case OP_BEGIN_CONSTR: { if (st.constructing || outs == 0 || !st.spec.nested() || st.conformal_set()) return false; /* conformal + construction: outside every listed property, see DESIGN */ g.beginConstruction(); st.constructing = true; st.candidates.clear(); t << "BeginConstr"; break; }
+    case OP_BEGIN_CONSTR: { if (st.constructing || outs == 0 || !st.spec.nested() || st.conformal_set()) return false; /* conformal + construction: outside every listed property, see DESIGN */ g.beginConstruction(); st.constructing = true; st.candidates.clear();
+        { st.target.clear(); st.target_done.clear(); GridSpec r = st.spec; r.limits = g.getLevelLimits();
+          try { TasmanianSparseGrid ref; make_raw(ref, r, st.spec.depth + 1, 0); if (ref.getNumPoints() > 2 * st.cap) make_raw(ref, r, st.spec.depth, 0);
+                if (ref.getNumPoints() <= 2 * st.cap) { apply_transforms(ref, st.spec); st.target = ref.getPoints(); } } catch (std::runtime_error &) {} }
+        t << "BeginConstr"; break; }
     case OP_CANDIDATES: {
         if (!st.constructing) return false;
         int out = std::min(op.output, outs - 1); if (st.spec.family == F_GLOBAL) out = std::max(out, 0);
@@ -371,22 +377,38 @@ inline bool apply_op(GridState &st, const Op &op) {
         if ((int)(st.candidates.size() / (size_t)dims) > 4 * st.cap) st.candidates.resize((size_t)(4 * st.cap) * (size_t)dims);
         t << "->" << st.candidates.size() / (size_t)dims; break; }
     case OP_LOAD_CONSTR: {
-        if (!st.constructing || st.candidates.empty()) return false;
-        size_t nc = st.candidates.size() / (size_t)dims; size_t want = std::min(nc, (size_t)(1 + op.count));
-        std::vector<size_t> idx;
-        if (op.variant == 0) for (size_t i = 0; i < want; i++) idx.push_back(i);                        // prefix, in order
-        else if (op.variant == 1) for (size_t i = 0; i < want; i++) idx.push_back(want - 1 - i);       // prefix, reversed
-        else { std::set<size_t> seen; for (uint8_t b : op.sel) { size_t k = b % nc; if (seen.insert(k).second) idx.push_back(k); } if (idx.empty()) idx.push_back(nc - 1); }
-        std::vector<double> x, y;
-        for (size_t k : idx) x.insert(x.end(), st.candidates.begin() + (long)(k * (size_t)dims), st.candidates.begin() + (long)((k + 1) * (size_t)dims));
+        if (!st.constructing) return false;
+        std::vector<double> x, y; std::vector<size_t> idx; bool from_target = false;
+        size_t nc = st.candidates.size() / (size_t)dims;
+        if (op.variant == 2 && !st.target.empty()) {   // arbitrary order: any points of the deeper reference grid, possibly before their parents
+            from_target = true; size_t nt = st.target.size() / (size_t)dims;
+            std::set<Coord> have;   // never re-deliver a point the grid already holds (callers deliver new samples only)
+            if (g.getNumLoaded()) { auto lp = g.getLoadedPoints(); for (size_t i = 0; i < lp.size() / (size_t)dims; i++) have.insert(coord_of(&lp[i * (size_t)dims], dims)); }
+            std::vector<uint8_t> sel = op.sel; if (sel.empty()) sel.push_back((uint8_t)op.count);
+            for (size_t q = 0; q < sel.size(); q++) { size_t k = ((size_t)sel[q] * 7 + q * 13 + (size_t)op.count * 31) % nt; size_t tries = 0;
+                while (tries < nt && (st.target_done.count(k) || have.count(coord_of(&st.target[k * (size_t)dims], dims)) || st.dict.count(coord_of(&st.target[k * (size_t)dims], dims)))) { k = (k + 1) % nt; tries++; }   // (also never a sample delivered earlier and still parked)
+                if (tries == nt) break; st.target_done.insert(k); idx.push_back(k); }
+            if (idx.empty()) return false;
+            for (size_t k : idx) x.insert(x.end(), st.target.begin() + (long)(k * (size_t)dims), st.target.begin() + (long)((k + 1) * (size_t)dims));
+        } else {
+            if (nc == 0) return false;
+            size_t want = std::min(nc, (size_t)(1 + op.count));
+            if (op.variant == 0) for (size_t i = 0; i < want; i++) idx.push_back(i);                        // prefix, in order
+            else if (op.variant == 1) for (size_t i = 0; i < want; i++) idx.push_back(want - 1 - i);       // prefix, reversed
+            else { std::set<size_t> seen; for (uint8_t b : op.sel) { size_t k = b % nc; if (seen.insert(k).second) idx.push_back(k); } if (idx.empty()) idx.push_back(nc - 1); }
+            for (size_t k : idx) x.insert(x.end(), st.candidates.begin() + (long)(k * (size_t)dims), st.candidates.begin() + (long)((k + 1) * (size_t)dims));
+        }
         y = st.values_for(x);
-        if (idx.size() == 1 && op.count % 2) g.loadConstructedPoints(x.data(), 1, y.data()); else g.loadConstructedPoints(x, y);
+        bool singles = (op.count % 2) == 1;
+        if (singles) for (size_t q = 0; q < idx.size(); q++) g.loadConstructedPoints(&x[q * (size_t)dims], 1, &y[q * (size_t)outs]);
+        else g.loadConstructedPoints(x, y);
         st.record(x, y); st.n_constr_loads++;
-        // delivered candidates are no longer candidates
-        std::vector<double> rest; std::set<size_t> gone(idx.begin(), idx.end());
-        for (size_t k = 0; k < nc; k++) if (!gone.count(k)) rest.insert(rest.end(), st.candidates.begin() + (long)(k * (size_t)dims), st.candidates.begin() + (long)((k + 1) * (size_t)dims));
-        st.candidates.swap(rest);
-        t << "LoadConstr(" << idx.size() << " pts v" << op.variant << ")"; break; }
+        if (!from_target) {   // delivered candidates are no longer candidates
+            std::vector<double> rest; std::set<size_t> gone(idx.begin(), idx.end());
+            for (size_t k = 0; k < nc; k++) if (!gone.count(k)) rest.insert(rest.end(), st.candidates.begin() + (long)(k * (size_t)dims), st.candidates.begin() + (long)((k + 1) * (size_t)dims));
+            st.candidates.swap(rest);
+        } else st.candidates.clear();
+        t << "LoadConstr(" << idx.size() << " pts " << (from_target ? "target" : "cand") << " v" << op.variant << (singles ? " singles" : " batch") << ")"; break; }
     case OP_FINISH_CONSTR: { if (!st.constructing) return false; g.finishConstruction(); st.constructing = false; st.candidates.clear(); t << "FinishConstr"; break; }
     case OP_SET_TRANSFORM: {
         auto old = g.getNumLoaded() ? g.getLoadedPoints() : std::vector<double>();
